@@ -44,6 +44,18 @@ theorem reserved_names :
     (∀ n ∈ ["wc", "wildcard", "gwc", "generic_wildcard", "rec", "recursive", "parent", "shape"],
       n ∈ Generated.reservedAttrs ∧ n ∈ Generated.reservedAttrsDash) := by decide
 
+/-- the attribute names the builder documents as its own: the step-producing properties, the
+two hook methods and one class constant -/
+def documentedAttrs : List String :=
+  ["wc", "wildcard", "gwc", "generic_wildcard", "rec", "recursive", "parent", "shape",
+   "create_path_builder", "transform_attribute_name", "_RESERVED_ATTR_FOR_VERTEX_DATA"]
+
+/-- … and nothing else is taken away from the keys `path.k` can spell: every real attribute
+of the builder classes (table regenerated from the source) is a documented one or a Python
+protocol name (`__x__`).  A new method or class attribute on the builder silently turns
+`path.<that name>` from a key step into something else. -/
+theorem only_documented_names_are_reserved : ∀ n ∈ Generated.reservedPlain, n ∈ documentedAttrs := by decide
+
 /-- `path.k` ≡ `path['k']` for every name that is not a real attribute of the builder
 (the table of real attributes is generated from the source on every run) -/
 theorem attr_eq_item (st : VStore) (e : Expr) (k : String) (hd : e.dash = false)
